@@ -1,4 +1,5 @@
 import IndicatifModel.Proofs.BarGeoBasic
+import IndicatifModel.Proofs.GenBridgeGeo
 import Mathlib.Tactic.Linarith
 import Mathlib.Tactic.Positivity
 import Mathlib.Algebra.Order.Field.Basic
@@ -376,6 +377,22 @@ theorem C13_wide_bar_fits (pos : ℕ) (len : Option ℕ) (W rest cw n : ℕ) (hc
   · have : (W - rest) % cw = 0 := Nat.mod_eq_zero_of_dvd hd
     omega
   · subst h1; simp; omega
+
+/-- **the geometry of the source is the geometry of these theorems.** `ProgressState::fraction` and the arithmetic of
+`ProgressStyle::format_bar`, translated from `src/state.rs` / `src/style.rs` on every run (`tools/rs2lean.py`; `f32` operations
+become the operations of the arithmetic), are the model's `fraction` and `formatBar` for every IEEE arithmetic — so
+`C13_cells`, `C13_full`, `C13_full_only_then`, `C13_monotone`, `C13_zero_filled` and `C13_wide_bar_fits` speak about what the
+source says now — and `format_bar` panics only for a zero `char_width`, which the builder rejects (C14) -/
+theorem C13_source_geometry (pos : ℕ) (len : Option ℕ) (f : α) (w cw n : ℕ) :
+    Generated.fraction A pos len = fraction A pos len ∧
+    (0 < cw → Generated.formatBar A f w cw n =
+      some ((formatBar A f w cw n).filled, (formatBar A f w cw n).cur, (formatBar A f w cw n).bg)) ∧
+    Generated.formatBar A f w 0 n = none := by
+  have h10 : A.lt A.one A.zero = false := by
+    rw [Bool.eq_false_iff]; intro hc
+    rw [I.lt_iff, I.val_one, I.val_zero] at hc
+    exact absurd hc (by norm_num)
+  exact ⟨GenBridge.gen_fraction A h10 pos len, fun hcw => GenBridge.gen_formatBar A f w cw n hcw, GenBridge.gen_formatBar_zero_cw A f w n⟩
 
 omit I
 
